@@ -117,4 +117,15 @@ theorem src_cachedb_flush :
        .loop ["range", "db.mem.dels"] [], .call "clear" ["_"], .done,
        .call "db.db.Flush" [], .ret ["v"]] := by decide
 
+
+/-- the puts loop of `MemDB.Flush` copies every pending pair into the committed map (created if
+absent) and ALWAYS drops the pending map afterwards — no `continue`, no adoption of the pending
+map as the committed one (which would alias them until the next flush) -/
+theorem src_memdb_flush_puts_loop :
+    hasInfix [isRange "db.puts", (· == .ifc ["db.buckets[]"] ["=="]), (· == .set "db.buckets[]"), (· == .done),
+      isRange "puts", (· == .set "db.buckets[][]"), (· == .done), isCallA "delete" ["db.puts"], (· == .done)]
+      skel_MemDB_Flush = true ∧
+    occurs (· == .cont) skel_MemDB_Flush = false ∧ occurs (· == .brk) skel_MemDB_Flush = false ∧
+    (skel_MemDB_Flush.filter (· == .set "db.buckets[]")).length = 2 := by decide
+
 end Verif.C17Src
